@@ -151,9 +151,9 @@ theorem idatChunks_good (crc : Bytes → Nat) (s : Bytes) : ∀ (fuel pos : Nat)
       split
       · exact Good_ok True.intro
       split
-      · exact Good_err
+      · exact Good_ok True.intro
       split
-      · exact Good_err
+      · exact Good_ok True.intro
       · exact ih _ _ _
     · exact Good_ok True.intro
 
